@@ -524,28 +524,44 @@ def finishClassOrEnum (F : Nat) (c : Core) (name : PQName) (isTypedef : Bool) (m
         let tok ← nextTokenMustBe [",", ";"]
         if tok.type = ";" then pure (.inr ()) else pure (.inl ()))
 
+/-- `_parse_enumerator_list`, one iteration, first part: the doc block above and the name -/
+def enumHead : M (Option String × CTok) := do
+  let doxygen ← getDoxygen
+  let nameTok ← nextTokenMustBe ["}", "NAME"]
+  pure (doxygen, nameTok)
+
+/-- … the trailing doc comment, looked for only when there was no block above -/
+def enumDox (doxygen : Option String) : M (Option String) :=
+  match doxygen with
+  | none => getDoxygenAfter
+  | some d => pure (some d)
+
+/-- … attributes, `= value`, and the `,` or `}` that follows -/
+def enumTail (F : Nat) (values : List Enumerator) (name : String) (doxygen : Option String) :
+    M (List Enumerator ⊕ List Enumerator) := do
+  let mut tok ← nextTokenMustBe ["}", ",", "=", "DBL_LBRACKET"]
+  if tok.type = "DBL_LBRACKET" then
+    consumeAttributeSpecifierSeq F tok
+    tok ← nextTokenMustBe ["}", ",", "="]
+  let mut value : Option Value := none
+  if tok.type = "=" then
+    let toks ← consumeValueUntil F [] [",", "}"]
+    value := some (createValue toks)
+    tok ← nextTokenMustBe ["}", ","]
+  let values := values ++ [{ name := name, value := value, doxygen := doxygen }]
+  if tok.type = "}" then pure (.inr values) else pure (.inl values)
+
+/-- one iteration of the `while True:` of `_parse_enumerator_list` -/
+def enumBody (F : Nat) (values : List Enumerator) : M (List Enumerator ⊕ List Enumerator) := do
+  let (doxygen, nameTok) ← enumHead
+  if nameTok.value = "}" then pure (.inr values)
+  else do
+    let doxygen ← enumDox doxygen
+    enumTail F values nameTok.value doxygen
+
 /-- `_parse_enumerator_list` -/
 def parseEnumeratorList (F : Nat) : M (List Enumerator) :=
-  loopN F ([] : List Enumerator) (fun values => do
-    let doxygen ← getDoxygen
-    let nameTok ← nextTokenMustBe ["}", "NAME"]
-    if nameTok.value = "}" then pure (.inr values)
-    else do
-      let doxygen ← (match doxygen with
-        | none => getDoxygenAfter
-        | some d => pure (some d))
-      let name := nameTok.value
-      let mut tok ← nextTokenMustBe ["}", ",", "=", "DBL_LBRACKET"]
-      if tok.type = "DBL_LBRACKET" then
-        consumeAttributeSpecifierSeq F tok
-        tok ← nextTokenMustBe ["}", ",", "="]
-      let mut value : Option Value := none
-      if tok.type = "=" then
-        let toks ← consumeValueUntil F [] [",", "}"]
-        value := some (createValue toks)
-        tok ← nextTokenMustBe ["}", ","]
-      let values := values ++ [{ name := name, value := value, doxygen := doxygen }]
-      if tok.type = "}" then pure (.inr values) else pure (.inl values))
+  loopN F ([] : List Enumerator) (enumBody F)
 
 /-- `_parse_enum_decl(typename, tok, doxygen, is_typedef, location, mods)` -/
 def parseEnumDecl (F : Nat) (c : Core) (typename : PQName) (tok : CTok) (doxygen : Option String)
@@ -698,32 +714,26 @@ def parseDeclarations (F : Nat) (c : Core) (tok : CTok) (doxygen : Option String
 
 /-! ### namespace, extern, friend, inline, typedef, block end -/
 
-/-- `_parse_namespace(tok, doxygen, inline)` -/
-def parseNamespace (F : Nat) (tok : CTok) (doxygen : Option String) (inline : Bool) : M Unit := do
-  let location := LocRef.tok tok.sidx
-  let tok ← nextTokenMustBe ["NAME", "{"]
-  let (names, nsAlias) ← (
-    if tok.type != "{" then do
-      -- Check for namespace alias here
-      let (names0, tok, endtok, nsAlias) ← (do
-        match (← tokenIf ["="]) with
-        | some _ => do
-          let names0 ← (do
-            match (← tokenIf ["DBL_COLON"]) with
-            | some mt => pure [mt.value]
-            | none => pure [])
-          let t ← nextTokenMustBe ["NAME"]
-          pure (names0, t, ";", some tok)
-        | none => pure ([], tok, "{", (none : Option CTok)))
-      let names ← loopN F (names0, tok) (fun (names, tok) => do
-        let names := names ++ [tok.value]
-        let t ← nextTokenMustBe ["DBL_COLON", endtok]
-        if t.type = endtok then pure (.inr names)
-        else do
-          let t2 ← nextTokenMustBe ["NAME"]
-          pure (.inl (names, t2)))
-      pure (names, nsAlias)
-    else pure ([], none))
+/-- one iteration of the name loop of `_parse_namespace` (`endtok` is `{` or, for an alias, `;`) -/
+def nsNameBody (endtok : String) (st : List String × CTok) : M ((List String × CTok) ⊕ List String) := do
+  let names := st.1 ++ [st.2.value]
+  let t ← nextTokenMustBe ["DBL_COLON", endtok]
+  if t.type = endtok then pure (.inr names)
+  else do
+    let t2 ← nextTokenMustBe ["NAME"]
+    pure (.inl (names, t2))
+
+/-- after `namespace A =`: the optional leading `::` and the first name of the aliased namespace -/
+def nsAliasHead (tok : CTok) : M (List String × CTok × String × Option CTok) := do
+  let names0 ← (do
+    match (← tokenIf ["DBL_COLON"]) with
+    | some mt => pure [mt.value]
+    | none => pure [])
+  let t ← nextTokenMustBe ["NAME"]
+  pure (names0, t, ";", some tok)
+
+/-- the end of `_parse_namespace`: the checks, then the alias callback or the new block -/
+def nsFinish (location : LocRef) (doxygen : Option String) (inline : Bool) (names : List String) (nsAlias : Option CTok) : M Unit :=
   if inline && names.length > 1 then cxxError "a nested namespace definition cannot be inline"
   else do
     let state ← getTop
@@ -734,6 +744,22 @@ def parseNamespace (F : Nat) (tok : CTok) (doxygen : Option String) (inline : Bo
       | none =>
         Prog.push { kind := .ns, loc := location, ns := { names := names, inline := inline, doxygen := doxygen } }
           (Prog.pure ())
+
+/-- `_parse_namespace(tok, doxygen, inline)` -/
+def parseNamespace (F : Nat) (tok : CTok) (doxygen : Option String) (inline : Bool) : M Unit := do
+  let location := LocRef.tok tok.sidx
+  let tok ← nextTokenMustBe ["NAME", "{"]
+  let (names, nsAlias) ← (
+    if tok.type != "{" then do
+      -- Check for namespace alias here
+      let (names0, tok, endtok, nsAlias) ← (do
+        match (← tokenIf ["="]) with
+        | some _ => nsAliasHead tok
+        | none => pure ([], tok, "{", (none : Option CTok)))
+      let names ← loopN F (names0, tok) (nsNameBody endtok)
+      pure (names, nsAlias)
+    else pure ([], none))
+  nsFinish location doxygen inline names nsAlias
 
 /-- `_parse_template_instantiation(doxygen, extern)` -/
 def parseTemplateInstantiation (F : Nat) (c : Core) (doxygen : Option String) (extern : Bool) : M Unit := do
@@ -807,13 +833,16 @@ def processAccessSpecifier (tok : CTok) : M Unit := do
 
 /-! ### using -/
 
+/-- one iteration of the name loop of `_parse_using_directive` -/
+def usingDirBody (names : List String) : M (List String ⊕ List String) := do
+  let tok ← nextTokenMustBe ["NAME"]
+  let names := names ++ [tok.value]
+  if (← tokenIf ["DBL_COLON"]).isNone then pure (.inr names) else pure (.inl names)
+
 /-- `_parse_using_directive(state)` -/
 def parseUsingDirective (F : Nat) : M Unit := do
   let names0 : List String := if (← tokenIf ["DBL_COLON"]).isSome then [""] else []
-  let names ← loopN F names0 (fun names => do
-    let tok ← nextTokenMustBe ["NAME"]
-    let names := names ++ [tok.value]
-    if (← tokenIf ["DBL_COLON"]).isNone then pure (.inr names) else pure (.inl names))
+  let names ← loopN F names0 usingDirBody
   if names.isEmpty then raiseParseError none "NAME"
   else emit (.usingNamespace names)
 
